@@ -217,6 +217,8 @@ def run(ctx: Ctx):
     conversions_drop_caches(ctx, model, "C15", "R-fresh")
     no_memoisation(ctx, model, "C15", "R-fresh", ("pygaps.characterisation.",),
                    "the cached value is keyed by object identity / name and survives a conversion or refit of the same object")
+    from .C03 import r_order
+    r_order(ctx, model, prop="C15")
     ctx.rule("R-acc: the reads the routines rely on - PointIsotherm.pressure / loading / pressure_at / loading_at with explicit target "
              "representations - return F_out * g(F_in * x) with the permanent-conversion factors for every stored pressure representation and "
              "every non-fractional stored loading representation (the accessor interpretation of C03, restricted to the property's domain)")
